@@ -175,6 +175,32 @@ func (x *Exec) lookupIdent(env *Env, c *Clause, name string) (SymVal, types.Type
 				}
 			}
 		}
+		if name == "idx" {
+			// counting loop `for i := 0; i < e; i++`: idx is the number of completed iterations at the
+			// loop head and the 1-based number of the current iteration inside the body, as for range loops
+			if li != nil && li.countVar != nil && li == x.curLoop {
+				if v, ok := fr.locals[li.countVar]; ok {
+					return v, types.Typ[types.Int]
+				}
+			}
+			var best *loopInfo
+			for _, l2 := range x.loops {
+				if l2.body[fr.blk] && l2.countVar != nil && l2.rangeIdx == nil && (best == nil || len(l2.body) < len(best.body)) {
+					best = l2
+				}
+			}
+			if best != nil {
+				inRange := false
+				for _, l2 := range x.loops {
+					if l2.body[fr.blk] && l2.rangeIdx != nil && len(l2.body) < len(best.body) {
+						inRange = true
+					}
+				}
+				if v, ok := fr.locals[best.countVar]; ok && !inRange {
+					return Add(v, IntLit(1)), types.Typ[types.Int]
+				}
+			}
+		}
 		// innermost enclosing loop with a range index
 		for _, li := range x.loops {
 			if li.body[fr.blk] && li.rangeIdx != nil {
